@@ -212,6 +212,8 @@ class C11:
                 yield [[[s1]], fi, ('en', 'de', 'ru')[(fi + len(s1)) % 3], False, 0]
         for s1 in sa:
             yield [[[s1]], 0, 'de', True, 0]
+            yield [[[s1]], 0, 'en', 'nosp', 0]          # simple equations together with --nosp
+            yield [[[s1]], 2, 'de', 'nosp-full', 0]     # --nosp alone: the full scheme
             yield [[[s1]], 2, 'ru', False, 0]
             yield [[[s1]], 2, 'en', True, 0]
             yield [[[s1]], 3, 'ru', True, 0]
@@ -234,9 +236,11 @@ class C11:
 
     def judge(self, case):
         rows, fi, lang, simple, rs = case[:5]
+        nosp = simple in ('nosp', 'nosp-full')
+        simple = simple in (True, 'nosp')
         b, i1, i2 = build(case)
         src = b.s
-        o = impl.run_filter(src, {'pack': '*', 'lang': lang, 'seqs': simple})
+        o = impl.run_filter(src, dict({'pack': '*', 'lang': lang, 'seqs': simple}, **({'nosp': True} if nosp else {})))
         if o.kind != 'ok':
             return {'viol': [{'clause': 'returns', 'sig': 'C11:no-result', 'detail': {'source': src, 'info': o.info}}], 'out': o.info, 'nt': True, 'tr': 1}
         plain, nums = o.result
